@@ -482,7 +482,8 @@ class Process(StateMachine, persistence.Savable, metaclass=ProcessStateMachineMe
         if isinstance(self._state, process_states.Killed):
             raise exceptions.KilledError(self._state.msg)
         if isinstance(self._state, process_states.Excepted):
-            raise (self._state.exception or Exception('process excepted'))
+            # (``is None``, not truthiness: an exception object may well be falsy, e.g. one that defines ``__len__``)
+            raise (self._state.exception if self._state.exception is not None else Exception('process excepted'))
 
         raise exceptions.InvalidStateError
 
